@@ -90,6 +90,57 @@ var rxDate = regexp.MustCompile(`^([0-9]{4})-([0-9]{2})-([0-9]{2})$`)
 var rxDurNum = regexp.MustCompile(`[0-9]+`)
 var rxDur = regexp.MustCompile(`^(?:([0-9]+)y)?(?:([0-9]+)m)?(?:([0-9]+)d)?$`)
 
+// zoneT is the local zone of a case: a fixed offset (own arithmetic) or a named IANA zone with DST,
+// for which the conversion between local civil time and UTC is taken from Go's zone database
+// (trusted base; calendar arithmetic stays the harness' own).
+type zoneT struct {
+	off int
+	loc *time.Location
+}
+
+func (z zoneT) utcOf(y, m, d, h, mi, s int) int64 {
+	if z.loc == nil {
+		return daysFromCivil(y, m, d)*86400 + int64(h)*3600 + int64(mi)*60 + int64(s) - int64(z.off)
+	}
+	return time.Date(y, time.Month(m), d, h, mi, s, 0, z.loc).Unix()
+}
+
+func (z zoneT) civilOf(utc int64) der.Time {
+	if z.loc == nil {
+		return timeOfSecs(utc + int64(z.off))
+	}
+	t := time.Unix(utc, 0).In(z.loc)
+	return der.Time{Year: t.Year(), Month: int(t.Month()), Day: t.Day(), Hour: t.Hour(), Min: t.Minute(), Sec: t.Second()}
+}
+
+func (z zoneT) midnight(date string) (int64, bool) {
+	if _, ok := localMidnightUTC(date, 0); !ok {
+		return 0, false
+	}
+	g := rxDate.FindStringSubmatch(date)
+	y, _ := strconv.Atoi(g[1])
+	m, _ := strconv.Atoi(g[2])
+	d, _ := strconv.Atoi(g[3])
+	return z.utcOf(y, m, d, 0, 0, 0), true
+}
+
+// add adds y/m/d to a UTC instant in local calendar terms; returns the roll-over and the clamped result.
+func (z zoneT) add(utc int64, y, m, d int) (roll, clamp int64) {
+	lt := z.civilOf(utc)
+	mi := lt.Month - 1 + m
+	yy := lt.Year + y + mi/12
+	mm := mi%12 + 1
+	ry, rm, rd := civilFromDays(daysFromCivil(yy, mm, 1) + int64(lt.Day-1+d))
+	roll = z.utcOf(ry, rm, rd, lt.Hour, lt.Min, lt.Sec)
+	cd := lt.Day
+	if cd > monthLen(yy, mm) {
+		cd = monthLen(yy, mm)
+	}
+	cy, cm, cdd := civilFromDays(daysFromCivil(yy, mm, cd) + int64(d))
+	clamp = z.utcOf(cy, cm, cdd, lt.Hour, lt.Min, lt.Sec)
+	return
+}
+
 // localMidnightUTC returns the UTC second count of YYYY-MM-DD 00:00 at the given offset.
 func localMidnightUTC(date string, off int) (int64, bool) {
 	m := rxDate.FindStringSubmatch(date)
@@ -125,7 +176,8 @@ func addCalendar(utc int64, off, y, m, d int) (roll, clamp int64) {
 }
 
 type c04Case struct {
-	TZ      int // offset of local time from UTC in seconds
+	TZ      int    // offset of local time from UTC in seconds
+	Zone    string `json:",omitempty"` // IANA zone name (with DST) used instead of the fixed offset
 	Cert    *core.Validity
 	UseProf bool
 	Prof    *core.Validity
@@ -174,7 +226,16 @@ func checkC04(c c04Case) *core.Failure {
 func c04Run(c c04Case, wp *World, d *core.Dir, flags int, phase string) *core.Failure {
 	w := *wp
 	oldLocal := time.Local
+	z := zoneT{off: c.TZ}
 	time.Local = time.FixedZone("verif", c.TZ)
+	if c.Zone != "" {
+		loc, err := time.LoadLocation(c.Zone)
+		if err != nil {
+			return nil // zone database not available: nothing to check
+		}
+		z.loc = loc
+		time.Local = loc
+	}
 	t0 := time.Now().Unix()
 	res := core.Run(d, flags)
 	t1 := time.Now().Unix()
@@ -192,7 +253,7 @@ func c04Run(c c04Case, wp *World, d *core.Dir, flags int, phase string) *core.Fa
 	}
 	certOK := validSpec(c.Cert)
 	profOK := !c.UseProf || validSpec(c.Prof)
-	desc := fmt.Sprintf("%s: tz=%+d cert=%+v useProfile=%v profile=%+v", phase, c.TZ, c.Cert, c.UseProf, c.Prof)
+	desc := fmt.Sprintf("%s: tz=%+d zone=%q cert=%+v useProfile=%v profile=%+v", phase, c.TZ, c.Zone, c.Cert, c.UseProf, c.Prof)
 	if !certOK || !profOK {
 		if hasCert {
 			return core.Failf("C04/invalid-validity-accepted", "a certificate was generated from an invalid validity specification (until+duration or impossible date): %s", desc)
@@ -210,14 +271,14 @@ func c04Run(c c04Case, wp *World, d *core.Dir, flags int, phase string) *core.Fa
 	var nbFixed bool
 	var nb int64
 	if eff != nil && eff.From != "" {
-		nb, _ = localMidnightUTC(eff.From, c.TZ)
+		nb, _ = z.midnight(eff.From)
 		nbFixed = true
 	}
 	y, m, dd := 5, 0, 0
 	var naFixed bool
 	var na int64
 	if eff != nil && eff.Until != "" {
-		na, _ = localMidnightUTC(eff.Until, c.TZ)
+		na, _ = z.midnight(eff.Until)
 		naFixed = true
 	} else if eff != nil && eff.Duration != "" {
 		g := rxDur.FindStringSubmatch(eff.Duration)
@@ -233,7 +294,7 @@ func c04Run(c c04Case, wp *World, d *core.Dir, flags int, phase string) *core.Fa
 		}
 		probeNA := na
 		if !naFixed {
-			probeNA, _ = addCalendar(probeNB, c.TZ, y, m, dd)
+			probeNA, _ = z.add(probeNB, y, m, dd)
 		}
 		if timeOfSecs(probeNA).Year > 9999 || timeOfSecs(probeNB).Year > 9999 || timeOfSecs(probeNA).Year < 0 {
 			return nil // not representable in X.509: refusing is the only correct outcome
@@ -253,7 +314,7 @@ func c04Run(c c04Case, wp *World, d *core.Dir, flags int, phase string) *core.Fa
 			return core.Failf("C04/notAfter-until", "notAfter %v, expected %v (until=%s at local midnight, offset %+ds): %s", dec.Cert.NotAfter, timeOfSecs(na), eff.Until, c.TZ, desc)
 		}
 	} else {
-		roll, clamp := addCalendar(gotNB, c.TZ, y, m, dd)
+		roll, clamp := z.add(gotNB, y, m, dd)
 		if gotNA != roll && gotNA != clamp {
 			sig := "C04/notAfter-duration"
 			if eff == nil || eff.Duration == "" {
@@ -410,8 +471,8 @@ var tzOffsets = []int{0, 3600, -3600, 7200, 19800, 20700, 34200, 45900, 50400, -
 func TestC04(t *testing.T) {
 	r := core.Start(t, "C04")
 	defer r.Finish()
-	r.Rule = "one self-signed entity; validity block of the certificate and (optionally) of a referenced profile each drawn from {absent, {}, from, until, duration, from+until, from+duration, until+duration(+from)}; dates over 1950-2200 with month and day independent (edge years and the 2049/2050 boundary weighted, 10% of over-long days kept impossible), durations [Ny][Nm][Nd] up to 200y/2400m/100000d plus absurd ones; local zone = fixed offset from 14 values (-12:00..+14:00 incl. :30/:45) set through time.Local; YAML plain/quoted and JSON; plus the built CLI binary run with TZ set to six fixed-offset IANA zones. Oracle: own civil-date arithmetic. Non-trivial = a successful certificate whose effective block has a date with day != month, or a non-zero offset, or a time in 2049/2050; distinct by the whole case."
-	r.Assumptions = []string{"fixed-offset zones only (local midnight unambiguous)", "when adding years/months lands on a non-existent day, roll-over and clamping are both accepted", "results beyond year 9999 may only be refused"}
+	r.Rule = "one self-signed entity; validity block of the certificate and (optionally) of a referenced profile each drawn from {absent, {}, from, until, duration, from+until, from+duration, until+duration(+from)}; dates over 1950-2200 with month and day independent (edge years and the 2049/2050 boundary weighted, 10% of over-long days kept impossible), durations [Ny][Nm][Nd] up to 200y/2400m/100000d plus absurd ones; local zone = fixed offset from 14 values (-12:00..+14:00 incl. :30/:45) or, in a fifth of the cases, one of five IANA zones with daylight saving time, set through time.Local; YAML plain/quoted and JSON; plus the built CLI binary run with TZ set to six fixed-offset IANA zones. Oracle: own civil-date arithmetic. Non-trivial = a successful certificate whose effective block has a date with day != month, or a non-zero offset, or a time in 2049/2050; distinct by the whole case."
+	r.Assumptions = []string{"for zones with daylight saving time the conversion between local civil time and UTC is taken from Go's zone database (trusted base); the calendar arithmetic is the harness' own", "when adding years/months lands on a non-existent day, roll-over and clamping are both accepted", "results beyond year 9999 may only be refused"}
 	wrap := func(c c04Case) *core.Failure {
 		eff := c.Cert
 		if !hasAny(c.Cert) && c.UseProf {
@@ -439,6 +500,10 @@ func TestC04(t *testing.T) {
 			nt = true
 			cls = append(cls, "tz-nonzero")
 		}
+		if c.Zone != "" {
+			nt = true
+			cls = append(cls, "dst-zone")
+		}
 		switch {
 		case hasAny(c.Cert) && c.UseProf && hasAny(c.Prof):
 			cls = append(cls, "both-blocks")
@@ -458,7 +523,7 @@ func TestC04(t *testing.T) {
 		}
 		key := ""
 		if nt {
-			key = fmt.Sprintf("%+v|%+v|%v|%+v", c.TZ, c.Cert, c.UseProf, c.Prof)
+			key = fmt.Sprintf("%+v|%s|%+v|%v|%+v", c.TZ, c.Zone, c.Cert, c.UseProf, c.Prof)
 		}
 		r.Case(key, cls...)
 		r.Sample(cls[len(cls)-1], c)
@@ -500,6 +565,14 @@ func TestC04(t *testing.T) {
 			}
 		}
 	}
+	for _, zc := range []struct{ zone, from, dur string }{{"Europe/Berlin", "2022-03-20", "10d"}, {"Europe/Berlin", "2022-10-25", "7d"}, {"America/New_York", "2023-03-05", "1m10d"},
+		{"Australia/Sydney", "2024-04-01", "1y9d"}, {"Europe/London", "2049-03-25", "5d"}, {"America/Los_Angeles", "2021-11-01", "400d"}} {
+		i++
+		if r.Mine(i) {
+			c := c04Case{Zone: zc.zone, Cert: &core.Validity{From: zc.from, Duration: zc.dur}}
+			r.Report("validity", c, wrap(c))
+		}
+	}
 	for _, dur := range []string{"08y", "09m", "010d", "012m", "020y", "007y008m009d", "00y00m01d", "0100d"} {
 		i++
 		if r.Mine(i) {
@@ -515,6 +588,10 @@ func TestC04(t *testing.T) {
 		if rapid.Bool().Draw(t, "useprof") {
 			c.UseProf = true
 			c.Prof = genValidity(t, "prof")
+		}
+		if rapid.IntRange(0, 4).Draw(t, "dstzone") == 0 {
+			// zones with daylight saving time (transitions between 01:00 and 03:00 local)
+			c.TZ, c.Zone = 0, rapid.SampledFrom([]string{"Europe/Berlin", "America/New_York", "Australia/Sydney", "Europe/London", "America/Los_Angeles"}).Draw(t, "zone")
 		}
 		return c
 	}
